@@ -4,6 +4,7 @@ import Ovsdb.Model.Mapper
 import Ovsdb.CodecUpdates
 import Ovsdb.CodecCache
 import Ovsdb.Model.Client
+import Ovsdb.Model.Modelgen
 /-
   Lean.Json <-> Wire.J, and the canonical rendering of decoded values for the
   correspondence check of the wire decoders (C19, C12).
@@ -247,5 +248,31 @@ def clientProtocolFn (j : Json) : P Json := do
   let s := run strict pinned { deferring := deferring, cache := { rows := rows } } acts
   return Json.mkObj [("rows", storeToJson s.cache.rows), ("failed", .bool s.failed), ("deferring", .bool s.deferring),
     ("events", listToJson eventToJson s.cache.log)]
+
+end Ovsdb
+
+/-! ### C20: generated field types -/
+namespace Ovsdb
+open Lean Ovsdb.Wire Ovsdb.Modelgen
+
+partial def goTypeToString : GoType → String
+  | .int => "int" | .float64 => "float64" | .bool => "bool" | .string => "string"
+  | .ptr t => "*" ++ goTypeToString t
+  | .slice t => "[]" ++ goTypeToString t
+  | .map k v => "map[" ++ goTypeToString k ++ "]" ++ goTypeToString v
+  | .named a _ => a
+  | .invalid => "<invalid>"
+
+/-- {column: <column schema JSON>, alias} -> native type, generated type without and with enum types -/
+def fieldTypeFn (j : Json) : P Json := do
+  let alias ← jFieldD j "alias" jStr "Alias"
+  match decodeColumnSchema (jOfJson (← jField j "column")) with
+  | .ok c =>
+    return Json.mkObj [("native", .str (goTypeToString (nativeType c))),
+      ("plain", .str (goTypeToString (fieldType alias c false))),
+      ("enums", .str (goTypeToString (fieldType alias c true))),
+      ("enumsErased", .str (goTypeToString (fieldType alias c true).erase))]
+  | .err e => return Json.mkObj [("err", .str e)]
+  | .panic => return Json.mkObj [("err", .str "panic")]
 
 end Ovsdb
